@@ -17,6 +17,10 @@ NSHARDS = 64
 _STATE = {}
 
 
+class UserBaseExc(BaseException):
+    """A BaseException that is neither an Exception nor GeneratorExit (like KeyboardInterrupt / CancelledError)."""
+
+
 class Susp:
     """Harness awaitable that suspends exactly once."""
     def __await__(self):
@@ -56,11 +60,12 @@ CORO_BODIES = {
     'susp_catch': "    try:\n        await Susp()\n    except ValueError:\n        log.append('caught')\n        await Susp()\n        return 8\n    finally:\n        log.append('fin')\n    return 7\n",
     'raise': "    await Susp()\n    raise RuntimeError('boom')\n",
     'susp_bad_ret': "    await Susp()\n    return None\n",
+    'catch_base': "    try:\n        await Susp()\n    except GeneratorExit:\n        raise\n    except BaseException as e:\n        log.append(('caught', type(e).__name__))\n        await Susp()\n        raise RuntimeError('after')\n    raise RuntimeError('never-returns')\n",
 }
 
-SYNC_OPS = ['next', 'send(1)', 'send(None)', 'send(0)', 'throw(ValueError)', 'throw(StopIteration)', 'throw(GeneratorExit)', 'close']
-ASYNC_OPS = ['anext', 'asend(1)', 'asend(None)', 'asend(0)', "asend('')", 'athrow(ValueError)', 'athrow(StopAsyncIteration)', 'athrow(GeneratorExit)', 'aclose']
-CORO_OPS = ['send(None)', 'send(1)', 'throw(ValueError)', 'close']
+SYNC_OPS = ['next', 'send(1)', 'send(None)', 'send(0)', 'throw(ValueError)', 'throw(StopIteration)', 'throw(GeneratorExit)', 'throw(UserBaseExc)', 'close']
+ASYNC_OPS = ['anext', 'asend(1)', 'asend(None)', 'asend(0)', "asend('')", 'athrow(ValueError)', 'athrow(StopAsyncIteration)', 'athrow(GeneratorExit)', 'athrow(UserBaseExc)', 'aclose']
+CORO_OPS = ['send(None)', 'send(1)', 'throw(ValueError)', 'throw(UserBaseExc)', 'close']
 
 
 def programs(tier):
@@ -77,7 +82,10 @@ def programs(tier):
         for ann in ('', ' -> cabc.AsyncGenerator[object, object]'):
             out.append((f'agen:{name}:{ann.strip() or "unannotated-return"}', 'agen', f'async def f(log, p: int){ann}:\n' + body))
     for name, body in CORO_BODIES.items():
-        for ann in ('', ' -> int', ' -> object'):
+        for ann in ('', ' -> int', ' -> object', ' -> typing.NoReturn', ' -> typing.Never', ' -> cabc.Coroutine[None, None, typing.NoReturn]'):
+            if 'NoReturn' in ann or 'Never' in ann:
+                if name not in ('raise', 'ret_int', 'catch_base', 'susp_ret'):
+                    continue
             out.append((f'coro:{name}:{ann.strip() or "unannotated-return"}', 'coro', f'async def f(log, p: int){ann}:\n' + body))
     return out
 
@@ -94,7 +102,7 @@ def drive(awaitable, susp_log):
         return e.value
 
 
-_EXC = {'ValueError': ValueError, 'StopIteration': StopIteration, 'GeneratorExit': GeneratorExit, 'StopAsyncIteration': StopAsyncIteration}
+_EXC = {'UserBaseExc': UserBaseExc, 'ValueError': ValueError, 'StopIteration': StopIteration, 'GeneratorExit': GeneratorExit, 'StopAsyncIteration': StopAsyncIteration}
 
 
 def apply_op(obj, kind, op, susp_log):
@@ -142,7 +150,7 @@ def run_program(prog, part, maxlen):
     import collections.abc as cabc
     name, kind, src = prog
     viol, cov = part['violations'], part['cover']
-    ns = {'cabc': cabc, 'Susp': Susp, '__name__': 'bearmc.checks.c08'}
+    ns = {'cabc': cabc, 'typing': __import__('typing'), 'Susp': Susp, '__name__': 'bearmc.checks.c08'}
     exec(compile(src, f'<c08:{name}>', 'exec', dont_inherit=True), ns)
     f = ns['f']
     with warnings.catch_warnings():
@@ -160,7 +168,9 @@ def run_program(prog, part, maxlen):
         viol.append((f'kind:{name}', f'inspect reports (generator, asyncgen, coroutine) = {[k(g) for k in kinds]} for the wrapper, {[k(f) for k in kinds]} for the original\n{src}', {'src': src}))
         return
     ops = {'gen': SYNC_OPS, 'agen': ASYNC_OPS, 'coro': CORO_OPS}[kind]
-    ret_violation_expected = name in ('coro:ret_str_violates:-> int', 'coro:susp_bad_ret:-> int')
+    # a coroutine annotated as never returning violates its annotation whenever it returns
+    ret_violation_expected = name in ('coro:ret_str_violates:-> int', 'coro:susp_bad_ret:-> int') or \
+        (kind == 'coro' and ('NoReturn' in name or 'Never' in name) and name.split(':')[1] in ('ret_int', 'susp_ret'))
     for n in range(1, maxlen + 1):
         for seq in itertools.product(ops, repeat=n):
             cov['evaluations'] += 1
@@ -201,7 +211,7 @@ def run_program(prog, part, maxlen):
             if bad:
                 viol.append((f'diverges:{name}:{",".join(seq[:len(trace)])}', f'{bad}\n  sequence {list(seq)} on\n{src}',
                              {'src': src, 'sequence': list(seq),
-                              'script': 'import collections.abc as cabc, gc\nfrom beartype import beartype\nfrom bearmc.checks.c08 import Susp, apply_op\n' + src +
+                              'script': 'import collections.abc as cabc, gc, typing\nfrom beartype import beartype\nfrom bearmc.checks.c08 import Susp, apply_op\n' + src +
                                         f'g = beartype(f)\nfor fn in (f, g):\n    log, s = [], []\n    o = fn(log, 1)\n    print([apply_op(o, {kind!r}, op, s) for op in {list(seq)!r}], log, s)\n'}))
                 return
             # clean up objects that are still alive (avoid "never awaited" noise)
